@@ -12,6 +12,7 @@ import Mfi.Lemmas.SkelL
 import Mfi.Lemmas.AccL
 import Mfi.Props.C09
 import Mathlib.Tactic.Ring
+import Mfi.Lemmas.ConstL
 
 namespace Mfi.Props.C04
 open Mfi Mfi.Fx Mfi.Risk Mfi.Gen Mfi.Props.C09
@@ -21,13 +22,13 @@ open Mfi Mfi.Fx Mfi.Risk Mfi.Gen Mfi.Props.C09
 theorem exp10fx_pos {d e : Int} (h : exp10fx d = .ok e) : 0 < e := by
   unfold exp10fx at h
   split at h
-  · cases hg : EXP_10_I80F48[d.toNat]? with
+  · cases hg : POW10FX[d.toNat]? with
     | none => rw [hg] at h; cases h
     | some x =>
       rw [hg] at h
       injection h with h
       subst h
-      have : ∀ y ∈ EXP_10_I80F48, 0 < y := by decide
+      have : ∀ y ∈ POW10FX, 0 < y := by decide
       exact this x (List.mem_of_getElem? hg)
   · cases h
 
@@ -650,5 +651,13 @@ example : ∀ p ∈ demoAcct, (∃ price, p.feed = .fixed price ∧ 0 ≤ price)
   intro p hp
   simp only [demoAcct, List.mem_cons, List.mem_nil_iff, or_false] at hp
   rcases hp with rfl | rfl <;> exact ⟨⟨_, rfl, by decide⟩, by unfold Coherent; decide, by decide, by decide, by decide⟩
+
+/-- every valuation (calc_value) divides by the row of the scaling table chosen by the bank's balance decimals: that table is exactly the powers of ten 10^0 .. 10^23 as I80F48 (regenerated from the real
+    constants on every run; the model computes its own powers of ten and is diffed against the real functions across
+    ALL 24 decimals) -/
+theorem scaling_table_is_powers_of_ten : Mfi.Gen.EXP_10_I80F48 = Mfi.Fx.POW10FX := Mfi.ConstL.exp10_table_exact
+
+/-- "positions of less than one native unit count as empty": the threshold is exactly one unit -/
+theorem one_native_unit : Mfi.Gen.EMPTY_BALANCE_THRESHOLD = Mfi.Fx.ONE := by decide
 
 end Mfi.Props.C04
